@@ -73,7 +73,14 @@ func genC12Case(t *rapid.T) C12Case {
 	if rapid.Bool().Draw(t, "spwithoutkey") {
 		spB.KeyNames = nil
 	}
-	spec := world.Spec{IdP: idp, SPs: []world.SPSpec{stdSP(0), spB}, Users: []world.UserSpec{u0, u1}}
+	sp0 := stdSP(0)
+	sp0.WantAssertionsSigned = rapid.SampledFrom([]string{"", "", "true", "false", "0", "1"}).Draw(t, "wantassertionssigned0")
+	spB.WantAssertionsSigned = rapid.SampledFrom([]string{"", "", "true", "false", "0", "1"}).Draw(t, "wantassertionssigned1")
+	if rapid.IntRange(0, 3).Draw(t, "mixed-case-login") == 0 {
+		// login names are whatever the user store says: mixed case, and a second user whose name differs by case only
+		u0.LoginName, u1.LoginName = "J.Doe@Corp.example", "j.doe@corp.example"
+	}
+	spec := world.Spec{IdP: idp, SPs: []world.SPSpec{sp0, spB}, Users: []world.UserSpec{u0, u1}}
 	c := C12Case{Spec: spec, Host: rapid.SampledFrom(reqHosts).Draw(t, "host"), Style: genXMLStyle(t), Soap: rapid.SampledFrom([]string{"soap", "S"}).Draw(t, "soap")}
 	e0, e1 := spec.SPs[0].EntityID, spec.SPs[1].EntityID
 	issuer := rapid.SampledFrom([]string{e0, e0, e0, e0, e1, e1, e0, e1, "https://unregistered.example/metadata", A, swapCase(e0), e0 + "/"}).Draw(t, "issuer")
@@ -87,7 +94,7 @@ func genC12Case(t *rapid.T) C12Case {
 		}
 		q.SubjSPNameQualifier = rapid.SampledFrom([]string{"", own, spec.SPs[1].EntityID, spec.SPs[0].EntityID, "https://unregistered-audience.example/metadata"}).Draw(t, "subject-spnq")
 		q.SubjNameQualifier = rapid.SampledFrom([]string{"", "https://idp.example", "https://unregistered-audience.example/metadata"}).Draw(t, "subject-nq")
-		q.SubjFormat = rapid.SampledFrom([]string{"", "urn:oasis:names:tc:SAML:1.1:nameid-format:unspecified", "urn:oasis:names:tc:SAML:2.0:nameid-format:persistent"}).Draw(t, "subject-format")
+		q.SubjFormat = rapid.SampledFrom([]string{"", "urn:oasis:names:tc:SAML:1.1:nameid-format:unspecified", "urn:oasis:names:tc:SAML:2.0:nameid-format:persistent", "urn:oasis:names:tc:SAML:1.1:nameid-format:emailAddress", "urn:oasis:names:tc:SAML:1.1:nameid-format:emailAddress"}).Draw(t, "subject-format")
 	}
 	q.IssueInstant = spsim.Rel(-5, 0, "")
 	// requested attributes: drawn from the user's own attributes (matching), near misses and foreign names
